@@ -262,6 +262,8 @@ func (v *Verifier) resetRun() {
 	v.preamble = ""
 	v.ringFacts = map[string]bool{}
 	v.globals = map[*ssa.Global]*Object{}
+	v.escaped = map[*Object]bool{}
+	v.contains = map[*Object][]Value{}
 	v.opaqueGlobals = map[*ssa.Global]*Object{}
 	v.globalArrLen = map[*Object]int64{}
 	v.sentinels = map[*ssa.Global]*Object{}
@@ -580,6 +582,23 @@ func (v *Verifier) runPartition(pkg *ssa.Package, fn *ssa.Function, c *Contract,
 	se := &SpecEnv{fr: fr, st: st, old: st, vars: fr.params, pkg: pkg, fn: fn}
 	// ghost parameters (free ring / integer variables) and entry parametrisation of the inputs:
 	// "let p.X = px*p.Z*p.Z" substitutes the term into the entry state, so that no hypothesis remains
+	for _, nl := range c.Nullable {
+		le, err := parseSpec(nl)
+		if err != nil {
+			unsup("nullable %q: %v", nl, err)
+		}
+		lv, ok := se.eval(le.Parts[0]).(*PtrV)
+		if !ok || lv.Obj == nil {
+			unsup("nullable %q: not an lvalue", nl)
+		}
+		cur := v.getPath(v.content(st, lv.Obj), lv.Path)
+		pv, isP := cur.(*PtrV)
+		if !isP {
+			unsup("nullable %q: not a pointer cell", nl)
+		}
+		isNil := F.Var("isnil!"+sanitize(nl), SBool)
+		st.mem[lv.Obj] = v.setPath(v.content(st, lv.Obj), lv.Path, &IteV{C: isNil, A: &PtrV{}, B: pv})
+	}
 	for _, gp := range c.GhostParams {
 		st.ghosts[gp] = F.Var("gp!"+gp, SInt)
 	}
@@ -657,6 +676,12 @@ func (v *Verifier) runPartition(pkg *ssa.Package, fn *ssa.Function, c *Contract,
 		case *PtrV:
 			if q.Obj != nil {
 				v.allowed = append(v.allowed, allowedLoc{q.Obj, q.Path})
+				// a cell holding a map (or another object whose contents are not modelled): the map itself
+				if cv := v.content0(st, q.Obj); cv != nil {
+					if inner, ok := v.getPath(cv, q.Path).(*PtrV); ok && inner.Obj != nil && inner.Obj.Unmodelled {
+						v.allowed = append(v.allowed, allowedLoc{inner.Obj, nil})
+					}
+				}
 			}
 		case *SliceV:
 			if q.Obj != nil {
